@@ -16,13 +16,13 @@ FUNCTIONS = ["System_R.symmetrize2(use_symmetries_index=subgroup)", "System_R.sy
              "sym_wann_2._rotate_matrix/_matrix_to_dict", "SymmetrizerSAWF.from_spacegroup_and_projections/symmetrize_WCC (concrete)", "Projection / Dwann / irrep SpaceGroup (concrete)",
              "Rvectors (k-list transform used for the spectrum checks)"]
 BOUNDS = dict(quick=dict(structures="simple cubic s+p on one site (O_h x TR, 4 WF, 7 R-vectors); CsCl-type cubic cell with s on two different sites (O_h, 2 WF, 7 R-vectors); "
-                         "tetragonal cell, one site, s+pz (D_4h, 7 R-vectors); diamond-type fcc cell, s on the two equivalent sites (O_h, one block with two points)", matrices="Ham (all structures), AA (structure 1)", data="symbolic complex R-space matrices with X(-R)=X(R)^dagger",
+                         "tetragonal cell, one site, s+pz (D_4h, 7 R-vectors); diamond-type fcc cell, s on the two equivalent sites (O_h, one block with two points); tetragonal cell with three atoms of one species on two Wyckoff orbits listed interleaved, symmetrize(reorder_back=True) (3 WF: non-trivial regrouping and restoring of the order)", matrices="Ham (all structures), AA (structure 1)", data="symbolic complex R-space matrices with X(-R)=X(R)^dagger",
                          kpoints="2 generic rational k per structure, every operation of the resulting point group", spectrum="power sums tr H(k)^n, n=1..min(nb,3)"),
               thorough=dict(structures="as quick + bcc with a magnetic moment along z, spinor s orbital (2 WF, SS matrix); zincblende-type fcc cell, s on both sites (T_d x TR)",
                             matrices="Ham on every structure; Ham+AA on simple cubic, CsCl, tetragonal, diamond, zincblende; Ham+SS on the magnetic bcc", data="symbolic", kpoints="2..3 per structure", spectrum="n=1..min(nb,3)", subgroups="identity alone (CsCl, diamond) and an index-2 subgroup (tetragonal, simple cubic, zincblende) through use_symmetries_index"))
 EXPLANATION = ("The real System_R.symmetrize (space group by irrep/spglib and projections run concretely) is executed on symbolic Hermitian real-space matrices. z3 decides, for all "
                "matrix data: Hermiticity X(-R)=X(R)^dagger of the result, idempotence of a second symmetrisation (modulo exactly-zero padding of the R-set), equality of the spectrum at "
-               "g.k and k through the power sums tr H(k)^n (tolerance 1e-9, |data|<=1), and for AA the symmetry of the k-resolved trace; centre mapping is a concrete check.")
+               "g.k and k through the power sums tr H(k)^n (tolerance 1e-9, |data|<=1), and for AA the symmetry of the k-resolved trace; centre mapping, equality of the R-vector shifts with the Wannier centres and the restored order under reorder_back are concrete checks on the structural (data-independent) output.")
 ASSUMPTIONS = ["input matrices Hermitian, X(-R)=X(R)^dagger (the API's documented input)", "no block of the input is below the sparsity cutoff 1e-10 of _matrix_to_dict (generic data; "
                "dropping such a block changes the result by <=1e-10)", "|data| <= 1 for tolerance obligations", "structures and projections are the enumerated consistent ones"]
 OUTSIDE = ["'all space groups reachable / all projection sets': structures are enumerated (3 quick, 5 thorough), not quantified", "Berry-curvature covariance through the eigen-decomposition "
